@@ -8,7 +8,8 @@ set -e
 H=$VERIF/harness/c10
 HC="-std=c++20 -O2 -g -I$REPO -I$MC"
 par g++ -std=c++17 -O2 -c -I$MC $MC/mc.cpp -o $BUILD/mc.o
-par g++ -c $HC $H/c10_heap.cpp -o $BUILD/heap.o
+par g++ -c $HC -DC10_ASSERT_BUILD=1 $H/c10_heap.cpp -o $BUILD/heap_assert.o
+par g++ -c $HC -DC10_ASSERT_BUILD=0 $H/c10_heap.cpp -o $BUILD/heap_ndebug.o
 par g++ -c -std=c++20 -O1 -g -I$REPO $REPO/igris/sync/syslock_mutex.cpp -o $BUILD/syslock.o
 # the allocator, unchanged sources, twice
 for v in assert ndebug; do
@@ -31,7 +32,7 @@ for v in assert ndebug; do
   nm $BUILD/m_$v.o | grep -q ' T lin_malloc$'
   nm $BUILD/m_$v.o | grep -q ' T lin_free$'
   nm $BUILD/r_$v.o | grep -q ' T lin_realloc$'
-  par g++ $BUILD/heap.o $BUILD/m_$v.o $BUILD/r_$v.o $BUILD/syslock.o $BUILD/mc.o $BUILD/dprint.o $BUILD/dstub.o -lpthread -o $BUILD/c10_heap_$v
+  par g++ $BUILD/heap_$v.o $BUILD/m_$v.o $BUILD/r_$v.o $BUILD/syslock.o $BUILD/mc.o $BUILD/dprint.o $BUILD/dstub.o -lpthread -o $BUILD/c10_heap_$v
 done
 par g++ -fsanitize=address $BUILD/pools.o $BUILD/mc.o $BUILD/dprint.o $BUILD/dstub.o -o $BUILD/c10_pools
 parwait
